@@ -68,6 +68,17 @@ def setup(ctx):
             else:
                 ctx.shape("exclude:unmentioned")
         ctx.evaluations += 1
+        if ctx.rnd.random() < 0.15:
+            try:
+                again = self.only(*names) if kind == "only" else self.exclude(names[0])
+                if type(again) is not type(r) or not (again == r):
+                    violation(PROP, where, f"{kind}() repeated on the same marker gives a different result",
+                              {"marker": MM.mtext(self), "names": sorted(names), "first": MM.mtext(r), "second": MM.mtext(again),
+                               "group": "repeat"})
+            except CaseTimeout:
+                raise
+            except Exception as e:  # noqa: BLE001
+                violation(PROP, where, f"{kind}() repeated raised {type(e).__name__}", {"marker": MM.mtext(self), "group": "repeat"})
         if bad:
             violation(PROP, where, f"{kind}(): the result still mentions {sorted(bad)}",
                       {"marker": MM.mtext(self), "names": sorted(names), "result": MM.mtext(r), "group": kind + "-mention"})
